@@ -18,6 +18,8 @@ func main() {
 		famC15(os.Args[2])
 	case "c15race":
 		famC15Race(os.Args[2])
+	case "c15mm":
+		famC15mm(os.Args[2])
 	default:
 		fmt.Println("unknown family", os.Args[1])
 		os.Exit(2)
